@@ -225,7 +225,7 @@ pub fn check_program(ctx: &Ctx, p: &Prog, pools: &Pools, plan2: &Plan2, stats: &
         any_ok = true;
         let tensors: Vec<_> = inputs.iter().map(subject::to_tensor).collect();
         let mut ck = Checker { ctx, p, fill, reference: &reference, tensors: &tensors, stats, prefix, extra: None };
-        let dflt = RunCfg { owned_mask: 0, pool: None, order: None };
+        let dflt = RunCfg { owned_mask: 0, pool: None, order: None, owned_noncontiguous: false };
         // Box A: every non-empty subset of the valid values, default strategy.
         let nv = valid.len().min(7);
         if plan2.all_subsets && fill == 0 && (plan2.pairs || p.ops.len() <= 2) {
@@ -246,6 +246,7 @@ pub fn check_program(ctx: &Ctx, p: &Prog, pools: &Pools, plan2: &Plan2, stats: &
             let masks: Vec<u32> = (1u32..(1 << p.n_inputs)).collect();
             for &m in &masks {
                 ck.check(&l, outs, "owned-inputs", &RunCfg { owned_mask: m, ..dflt_cfg() });
+                ck.check(&l, outs, "owned-noncontiguous-inputs", &RunCfg { owned_mask: m, owned_noncontiguous: true, ..dflt_cfg() });
             }
             for (n, pool) in &pools.p {
                 ck.check(&l, outs, &format!("threads={n}"), &RunCfg { pool: Some(pool), ..dflt_cfg() });
@@ -270,7 +271,7 @@ pub fn check_program(ctx: &Ctx, p: &Prog, pools: &Pools, plan2: &Plan2, stats: &
                     if plan2.pairs || !is_planner {
                         for &m in &masks {
                             if plan2.pairs || m == masks[masks.len() - 1] {
-                                ck.check(&l, outs, "alt-order+owned-inputs", &RunCfg { owned_mask: m, pool: None, order: Some(ord) });
+                                ck.check(&l, outs, "alt-order+owned-inputs", &RunCfg { owned_mask: m, pool: None, order: Some(ord), owned_noncontiguous: false });
                             }
                         }
                     }
@@ -317,7 +318,7 @@ pub fn check_program(ctx: &Ctx, p: &Prog, pools: &Pools, plan2: &Plan2, stats: &
 }
 
 fn dflt_cfg<'a>() -> RunCfg<'a> {
-    RunCfg { owned_mask: 0, pool: None, order: None }
+    RunCfg { owned_mask: 0, pool: None, order: None, owned_noncontiguous: false }
 }
 
 pub fn program_box(ctx: &Ctx) -> Vec<Prog> {
